@@ -291,6 +291,63 @@ def gen(_shared):
         raise P.Unsupported("DateTime.add: unexpected type")
     out.append(text)
 
+    # ---------------- DateTime.set / on / at / replace / naive (they read self.fold: Model/WallHistory.v)
+    fn = _fn(dt_tree, "DateTime.set")
+    sparams = [a.arg for a in fn.args.args]
+    if sparams != ["self"] + FIELDS + ["tz"] or [ast.unparse(d_) for d_ in fn.args.defaults] != ["None"] * 8:
+        raise P.Unsupported(f"DateTime.set: unexpected signature {sparams}")
+    stypes = {p_: OZ for p_ in FIELDS}
+    stypes["tz"] = OTZ
+    text, rett, monad = _tr(cd, fn, "glue_DateTime_set", stypes, DT, "translated from src/pendulum/datetime.py :: DateTime.set "
+                            "(the tz argument is None or a timezone object)")
+    if rett != DT or monad != "result":
+        raise P.Unsupported("DateTime.set: unexpected type")
+    out.append(text)
+    cd.kwmethods[("set", DT)] = ("glue_DateTime_set", FIELDS + ["tz"], {p_: "None" for p_ in FIELDS + ["tz"]}, [stypes[p_] for p_ in FIELDS + ["tz"]],
+                                 DT, "result")
+    fn = _fn(dt_tree, "DateTime.on")
+    text, rett, monad = _tr(cd, fn, "glue_DateTime_on", {"year": Z, "month": Z, "day": Z}, DT, "translated from src/pendulum/datetime.py :: DateTime.on",
+                            force_result=True)
+    out.append(text)
+    fn = _fn(dt_tree, "DateTime.at")
+    if [ast.unparse(d_) for d_ in fn.args.defaults] != ["0", "0", "0"]:
+        raise P.Unsupported("DateTime.at: unexpected defaults")
+    text, rett, monad = _tr(cd, fn, "glue_DateTime_at", {"hour": Z, "minute": Z, "second": Z, "microsecond": Z}, DT,
+                            "translated from src/pendulum/datetime.py :: DateTime.at", force_result=True)
+    out.append(text)
+    fn = _fn(dt_tree, "DateTime.naive")
+    text, rett, monad = _tr(cd, fn, "glue_DateTime_naive", {}, DT, "translated from src/pendulum/datetime.py :: DateTime.naive", force_result=True)
+    out.append(text)
+    from .g13_stdlib_zone import Specialise
+    rfn = P.find_function(dt_tree, "DateTime.replace")
+    rparams = [a.arg for a in rfn.args.args]
+    if rparams != ["self"] + FIELDS + ["tzinfo", "fold"] or [ast.unparse(d_) for d_ in rfn.args.defaults] != ["None"] * 7 + ["True", "None"]:
+        raise P.Unsupported(f"DateTime.replace: unexpected signature {rparams}")
+    for variant, val in (("keep", True), ("tz", False)):
+        sp = Specialise("DateTime.replace", {"tzinfo is True": val})
+        fn = sp.visit(copy.deepcopy(rfn))
+        if sp.used != {"tzinfo is True"}:
+            raise P.Unsupported("DateTime.replace: `tzinfo is True` disappeared")
+        fn = Rw("DateTime.replace").visit(fn)
+        rtypes = {p_: OZ for p_ in FIELDS + ["fold"]}
+        if val:
+            fn.args.args = [a for a in fn.args.args if a.arg != "tzinfo"]
+            fn.body.insert(0, ast.parse("tzinfo = self.tzinfo").body[0])      # the branch taken when tzinfo is the default True
+            rest = [st for st in fn.body[1:] if ast.unparse(st) != "tzinfo = self.tzinfo"]
+            if len(rest) != len(fn.body) - 2:
+                raise P.Unsupported("DateTime.replace: the `tzinfo is True` branch is not `tzinfo = self.tzinfo`")
+            fn.body = [fn.body[0]] + rest
+        else:
+            rtypes["tzinfo"] = OTZ
+        fn.args.defaults = []
+        ast.fix_missing_locations(fn)
+        text, rett, monad = _tr(cd, fn, f"glue_DateTime_replace_{variant}", rtypes, DT,
+                                "translated from src/pendulum/datetime.py :: DateTime.replace SPECIALISED to "
+                                + ("tzinfo not passed (tzinfo is True = True)" if val else "tzinfo passed: None or a timezone object (tzinfo is True = False)"))
+        if rett != DT or monad != "result":
+            raise P.Unsupported("DateTime.replace: unexpected type")
+        out.append(text)
+
     fn = _fn(dt_tree, "DateTime.int_timestamp")
     text, rett, monad = _tr(cd, fn, "glue_DateTime_int_timestamp", {}, DT, "translated from src/pendulum/datetime.py :: DateTime.int_timestamp (a property)",
                             force_result=True)
